@@ -20,7 +20,7 @@ import (
 func init() {
 	props["C01"] = func(c *Ctx) { runProcK3(c, "C01"); runMetaK3(c, "C01") }
 	props["C05"] = func(c *Ctx) { runProcK3(c, "C05"); runMetaK3(c, "C05"); c05supReason(c) }
-	props["C02"] = func(c *Ctx) { runProcK3(c, "C02"); runC02Extra(c) }
+	props["C02"] = func(c *Ctx) { runProcK3(c, "C02"); runC02Extra(c); c02conserve(c) }
 }
 
 type k3replay struct {
